@@ -49,6 +49,9 @@ func (c *CNF) UnmarshalCBOR(data []byte) error {
 	if err != nil {
 		return errs.Wrap(err).WithMessage("failed to unmarshal CNF access structure")
 	}
+	if dto == nil {
+		return errs.Wrap(serde.ErrNull).WithMessage("failed to unmarshal CNF access structure")
+	}
 
 	maximalUnqualifiedSets := make([]ds.Set[ID], len(dto.MaximalUnqualifiedSets))
 	for i, u := range dto.MaximalUnqualifiedSets {
